@@ -15,14 +15,14 @@ from ..pool import pmap
 from ..project import chain_of
 
 
-def model_chains(run: Run) -> list[dict]:
+def model_chains(run: Run, cfg: str = "MC_Scoping_emit_quick.cfg") -> list[dict]:
     def produce():
-        res = tlc.must_ok(tlc.run("MC_Scoping", "MC_Scoping_emit_quick.cfg", workers=1, timeout=7200, heap="8g"), "MC_Scoping emit")
+        res = tlc.must_ok(tlc.run("MC_Scoping", cfg, workers=1, timeout=7200, heap="8g"), "MC_Scoping emit")
         return {"printed": res.printed, "generated": res.generated, "distinct": res.distinct}
-    d = tlc.cached(f"scoping-emit-{tlc.spec_digest('Scoping')}", produce)
+    d = tlc.cached(f"scoping-emit-{cfg}-{tlc.spec_digest('Scoping')}", produce)
     run.states += d["distinct"]
     run.transitions += d["generated"]
-    run.coverage.setdefault("tlc_runs", []).append({"run": "MC_Scoping (emission, <= 3 frames)", "distinct_states": d["distinct"],
+    run.coverage.setdefault("tlc_runs", []).append({"run": f"MC_Scoping/{cfg} (emission)", "distinct_states": d["distinct"],
                                                     "chains": len(d["printed"])})
     return d["printed"]
 
@@ -48,7 +48,7 @@ def provenance(c: dict, prop: str) -> str:
     # reference site (dynamic scoping) finds a binding the defining scope cannot see
     def lex_binds(f, name):
         return f["kind"] in ("let", "rec") and any(b["n"] == name for b in f["binds"])
-    dyn = any(b["k"] in ("ref", "inh") and any(lex_binds(g, b["m"] or b["n"]) for g in ch[j + 1:])
+    dyn = any(b["k"] in ("ref", "inh", "inhfrom") and any(lex_binds(g, b["m"] or b["n"]) for g in ch[j + 1:])
               for j, f in enumerate(ch) for b in f["binds"])
     lexical = any(f["kind"] in ("let", "rec") and any(b["n"] == "a" for b in f["binds"]) for f in ch)
     if prop == "C10":
@@ -63,7 +63,9 @@ def provenance(c: dict, prop: str) -> str:
                         got = f["kind"]
         # does a with-environment refer to one of its own bindings (treated as recursive by the code)?
         selfref = any(f["kind"] == "with" and any(b["k"] == "ref" and any(x["n"] == b["m"] for x in f["binds"]) for b in f["binds"]) for f in ch)
-        return f"with_frame_has_binds={with_binds}|inherit_in_chain={inh}|inner_rebinding_of_rhs_name={dyn}"
+        extk = "|ext=" + "+".join(sorted({b["k"] for f in ch for b in f["binds"] if b["k"] in ("inhfrom", "setv", "formal")})) \
+            if (not with_binds) and any(b["k"] in ("inhfrom", "setv", "formal") for f in ch for b in f["binds"]) else ""
+        return f"with_frame_has_binds={with_binds}|inherit_in_chain={inh}|inner_rebinding_of_rhs_name={dyn}{extk}"
     parts = []
     for tag in ("edit", "assign"):
         e = c["o"].get(tag)
@@ -170,13 +172,21 @@ def run_engine(prop: str, tier: str, seed: int) -> int:
     long3 = [c for c in chains if len(c["ch"]) == 3]
     if tier == "quick":
         long3 = rnd.sample(long3, 25000)
+    ext = model_chains(run, "MC_Scoping_emit_ext.cfg") if prop == "C10" else []      # inherit (s) a, set values, formals
+    rex = tlc.must_ok(tlc.run("MC_Scoping", "MC_Scoping_ext.cfg", workers=8, timeout=3600), "MC_Scoping ext") if prop == "C10" else None
+    if rex is not None:
+        run.add_model(rex, "MC_Scoping/MC_Scoping_ext.cfg (theorems with inherit-from / formals)")
+        for v in rex.violated:
+            run.violation(f"model|{v}", v, {})
     cases = []
-    for m in short + long3:
+    for m in short + long3 + ext:
         text, keys, editable = render_chain(m["ch"])
         if prop == "C11" and not editable:
             continue
-        cases.append({"id": len(cases) + 1, "text": text, "keys": keys, "edit": editable and prop == "C11", "model": m})
-    obs = pmap("harness.impl", "scope_case", [{"text": c["text"], "keys": c["keys"], "edit": c["edit"]} for c in cases], chunk=300)
+        cases.append({"id": len(cases) + 1, "text": text, "keys": keys, "edit": editable and prop == "C11", "model": m,
+                      "formals": bool(m["ch"]) and m["ch"][0]["kind"] == "formals"})
+    obs = pmap("harness.impl", "scope_case", [{"text": c["text"], "keys": c["keys"], "edit": c["edit"], "formals": c["formals"]}
+                                               for c in cases], chunk=300)
     tlc.WORK.mkdir(exist_ok=True)
     tmp = Path(tempfile.mkdtemp(prefix="scope-", dir=tlc.WORK))
     try:
